@@ -55,7 +55,8 @@ def roundtrip(which):
                     gdx = d['meta']['lateral_resolution'] * 1e3
                     gw = d['meta']['wavelength'] * 1e6
             if which != 'zygo-truncation':
-                q = wvl * 1e3 / 32768 * 1.0001 + 1e-9          # one quantisation step of the format, nm
+                # one quantisation step of the format (nm) + the float32 rounding of the wavelength header field, which scales every value
+                q = wvl * 1e3 / 32768 * 1.0001 + 1e-9 + 2.5e-7 * float(np.nanmax(abs(z)))
                 check('shape', tuple(got.shape) == (H, W))
                 check('invalid-samples-in-place', bool((np.isnan(got) == nanmask).all()) if tuple(got.shape) == (H, W) else False)
                 ok = tuple(got.shape) == (H, W) and bool(np.allclose(got[~nanmask], z[~nanmask], atol=q, rtol=0))
